@@ -299,3 +299,69 @@ func scanResultFiles(dir string) (nonfinite int, files int) {
 	}
 	return
 }
+
+// validateConcat validates many (short) traces in few TLC runs: the traces are concatenated in chunks (every run
+// starts with its header line, the skeleton restarts there). Returns one result per violated chunk (first violation).
+func validateConcat(c *core.Ctx, cases []*runCase, module, cfg string, chunk int) []*traceResult {
+	var res []*traceResult
+	var mu sync.Mutex
+	nch := (len(cases) + chunk - 1) / chunk
+	parallel(nch, 8, func(ci int) {
+		lo, hi := ci*chunk, (ci+1)*chunk
+		if hi > len(cases) {
+			hi = len(cases)
+		}
+		dir := c.Sub(fmt.Sprintf("concat-%d", ci))
+		path := filepath.Join(dir, "trace.ndjson")
+		f, err := os.Create(path)
+		if err != nil {
+			c.Machineryf("%v", err)
+			return
+		}
+		type span struct{ from, to int; rc *runCase }
+		var spans []span
+		line := 0
+		for _, rc := range cases[lo:hi] {
+			b, err := os.ReadFile(rc.Trace)
+			if err != nil || len(b) == 0 {
+				continue
+			}
+			n := strings.Count(string(b), "\n")
+			f.Write(b)
+			spans = append(spans, span{line + 1, line + n, rc})
+			line += n
+		}
+		f.Close()
+		run := c.TLC(core.TLCOpts{Module: module, Cfg: cfg, Kind: "trace", Workers: 1, Timeout: 30 * time.Minute, Files: map[string]string{"trace.ndjson": path}, Heap: "6g"})
+		if run.IsViolation() {
+			l, ok := run.AliasInt("l")
+			if !ok {
+				c.Machineryf("chunk %d: violation of %s but no trace position", ci, run.Violated)
+				return
+			}
+			ln := l - 1
+			tr := &traceResult{Violated: run.Violated, Line: ln, Run: run}
+			for _, sp := range spans {
+				if ln >= sp.from && ln <= sp.to {
+					tr.Case = sp.rc
+					tr.Line = ln - sp.from + 1
+				}
+			}
+			var m map[string]interface{}
+			json.Unmarshal([]byte(core.LineOf(path, ln)), &m)
+			tr.Event = m
+			mu.Lock()
+			res = append(res, tr)
+			mu.Unlock()
+			return
+		}
+		if !run.OK() {
+			c.Machineryf("chunk %d: trace validation failed: exit=%d timedOut=%v postconditionFailed=%v\n%s", ci, run.Exit, run.TimedOut, run.PostFail, run.Tail(25))
+			return
+		}
+		mu.Lock()
+		c.TracesOK += len(spans)
+		mu.Unlock()
+	})
+	return res
+}
